@@ -4996,9 +4996,12 @@ def missing_context_manager(source: str) -> str:
     ):
         target_template = ast.Name(id=target.id)
         nodes = [tup[0] for tup in nodes]
+        # Also a return or yield nested in a following statement hands out the object, which the
+        # with statement would close on the way out.
         if any(
-            isinstance(node, (ast.Yield, ast.Return)) and any(core.walk(node, target_template))
+            any(core.walk(leaving, target_template))
             for node in nodes
+            for leaving in core.walk(node, (ast.Return, ast.Yield, ast.YieldFrom))
         ):
             continue
 
